@@ -840,6 +840,99 @@ func c14Enumerate(tier string, emit explore.Emit) {
 				Run: func() explore.Result { return c14RunRetainedRows(later, other) }})
 		}
 	}
+	// streams of 65535 ... 131075 rows (counters of 16 bits wrap there), in CopyData messages of 8000 bytes
+	for _, rows := range []int{65535, 65536, 65537, 65541, 131075} {
+		rows := rows
+		emit(explore.Case{Family: "many-rows", Size: 500, Desc: func() any { return map[string]any{"rows": rows, "columns": "int4", "copydata_chunk": 8000} },
+			Run: func() explore.Result {
+				var res explore.Result
+				res.Outcome = "split"
+				res.Key = fmt.Sprint("rows", rows)
+				count, last, final := 0, int32(-1), ""
+				parse := func(ctx context.Context, q string) (wire.PreparedStatements, error) {
+					return wire.Prepared(wire.NewStatement(func(ctx context.Context, w wire.DataWriter, p []wire.Parameter) error {
+						cr, err := w.CopyIn(wire.BinaryFormat)
+						if err != nil {
+							return err
+						}
+						rd, err := wire.NewBinaryColumnReader(ctx, cr)
+						if err != nil {
+							return err
+						}
+						for {
+							row, err := rd.Read(ctx)
+							if err == io.EOF {
+								final = "eof"
+								return w.Complete("COPY")
+							}
+							if err != nil {
+								final = "error: " + err.Error()
+								return err
+							}
+							if v, ok := row[0].(int32); ok && v == last+1 {
+								last = v
+							}
+							count++
+						}
+					}, wire.WithColumns(wire.Columns{{Name: "n", Oid: 23}}))), nil
+				}
+				one, err := harness.StartOne(parse, wire.MessageBufferSize(1<<16))
+				if err != nil {
+					res.Engine = err.Error()
+					return res
+				}
+				defer one.Stop()
+				one.Step(pgproto.Startup("user", "u"))
+				one.Step(pgproto.Query("copy"))
+				stream := pgproto.BinaryCopyHeader()
+				for i := 0; i < rows; i++ {
+					stream = append(stream, 0, 1, 0, 0, 0, 4, byte(i>>24), byte(i>>16), byte(i>>8), byte(i))
+				}
+				stream = append(stream, pgproto.BinaryCopyTrailer()...)
+				var seg []byte
+				for len(stream) > 0 {
+					n := min(8000, len(stream))
+					seg = append(seg, pgproto.CopyData(stream[:n])...)
+					stream = stream[n:]
+				}
+				one.Step(append(seg, pgproto.CopyDone()...))
+				if count != rows || int(last) != rows-1 || final != "eof" {
+					res.Fail("split-dependent", fmt.Sprintf("a stream of %d int4 rows (0, 1, 2 ...) in CopyData messages of 8000 bytes: the reader delivered %d rows (in order up to %d) and ended with %q", rows, count, last, final))
+				}
+				return res
+			}})
+	}
+	// tuples announcing fewer fields than the table has columns (0, 1 of 2): an error, never a crash or a row
+	for _, fields := range []int{0, 1, 3, 0x7fff, 0x8000, 0xfffe} {
+		for _, after := range []int{0, 1} {
+			fields, after := fields, after
+			emit(explore.Case{Family: "wrong-width", Size: 3, Desc: func() any {
+				return map[string]any{"tuple_field_count": fields, "table_columns": 2, "good_rows_before_it": after}
+			},
+				Run: func() explore.Result {
+					var res explore.Result
+					res.Outcome = "split"
+					res.Key = fmt.Sprint("field-count", fields, after)
+					stream := pgproto.BinaryCopyHeader()
+					var want []string
+					for i := 0; i < after; i++ {
+						stream = append(stream, pgproto.BinaryCopyTuple([][]byte{{0, 0, 0, 7}, []byte("seven")})...)
+						want = append(want, c14Print([]any{int32(7), "seven"}))
+					}
+					stream = append(stream, byte(fields>>8), byte(fields), 0, 0, 0, 4, 0, 0, 0, 9, 0, 0, 0, 1, 'x')
+					stream = append(stream, pgproto.BinaryCopyTrailer()...)
+					o, eng := c14ServeWith([]string{"int4", "text"}, [][]byte{stream}, pgproto.CopyDone(), 0)
+					if eng != "" {
+						res.Engine = eng
+						return res
+					}
+					if !sameStrings(o.rows, want) || !strings.HasPrefix(o.final, "error") {
+						res.Fail("split-dependent", fmt.Sprintf("a tuple announcing %d fields in a table of 2 columns (after %d good rows): rows %v, reader ended with %q; expected %v and an error", fields, after, o.rows, o.final, want))
+					}
+					return res
+				}})
+		}
+	}
 	// long streams: 300 rows with NULLs in changing positions, one message and 100-byte messages
 	for _, chunk := range []int{0, 100, 8192} {
 		chunk := chunk
